@@ -80,7 +80,10 @@ def parse(text, stop=False, default='en', acc=None, id_generator=None, raw_scann
     try:
         sc = text if raw_scanner else StringScanner(text)
         m = matcher if matcher is not None else (TokenMatcher(default) if default != 'en' else None)
-        return ('ok', p.parse(sc, m))
+        d = p.parse(sc, m)
+        if not isinstance(d, dict):
+            return ('exc', 'Parser.parse returned %r instead of a document' % (d,))
+        return ('ok', d)
     except CompositeParserException as e:
         return ('errors', [err_tuple(x) for x in e.errors])
     except ParserException as e:
@@ -104,7 +107,10 @@ def parse_reused(text, default='en', stop=False):
     p.stop_at_first_error = stop
     p.ast_builder.id_generator = IdGenerator()
     try:
-        return ('ok', p.parse(StringScanner(text), m))
+        d = p.parse(StringScanner(text), m)
+        if not isinstance(d, dict):
+            return ('exc', 'Parser.parse returned %r instead of a document' % (d,))
+        return ('ok', d)
     except CompositeParserException as e:
         return ('errors', [err_tuple(x) for x in e.errors])
     except ParserException as e:
